@@ -138,6 +138,30 @@ def run(chk):
                     else:
                         chk.require(ok, rule, key, where="%s:%s" % (dtors[0].file, line), ok="released with the matching form",
                                     bad="allocated by %s, released as %s%s" % (info["what"], fam, "[]" if arr else ""), variant=vn)
+        # fields a method other than the constructor fills with a fresh allocation (built on first use) are owned as well; and a release in
+        # the destructor may depend on the released field only: `if (a) release(b)` leaks b in every object where a is not set
+        for rec in sorted({f.get("record") for f in fns if f.get("kind") == "dtor" and not f.get("implicit")}):
+            dtor = next(f for f in fns if f.get("kind") == "dtor" and f.get("record") == rec and not f.get("implicit"))
+            methods = [f for f in fns if f.get("record") == rec and f.get("kind") not in ("ctor", "dtor") and not f.get("static")]
+            lazy = pairing.lazily_owned_fields(v, methods)
+            rel, _ = pairing.releases_in(v, dtor, sym.sym("this"))
+            isproc = bool(re.search(r"[Pp]rocessor", rec or ""))
+            rule = "R5" if isproc else "R4"
+            for lv, info in sorted(lazy.items(), key=repr):
+                key = "%s::%s (%s, built on first use in %s) is released by the destructor" % (rec, sym.show(lv).replace("this->", ""), info["what"][:40], info["method"])
+                where = "%s:%s" % (dtor.file, dtor.line)
+                if lv not in rel:
+                    chk.refuted(rule, key, where=where, detail="~%s does not release this field" % rec, variant=vn)
+                else:
+                    chk.proved(rule, key, where=where, detail="released", variant=vn)
+            for lv in sorted(rel, key=repr):
+                for gs in pairing.RELEASE_GUARDS.get((dtor.usr, lv), []):
+                    foreign = [g_ for g_ in gs if not sym.contains(g_, lv) and any(a_[0] == "fld" and sym.root_of(a_) == sym.sym("this") for a_ in sym.atoms(g_))]
+                    if foreign:
+                        chk.refuted(rule, "%s: the release of %s in the destructor depends on that field only" % (rec, sym.show(lv).replace("this->", "")),
+                                    where="%s:%s" % (dtor.file, dtor.line),
+                                    detail="%s is released only when %s: an object in which that condition fails while %s is set leaks it%s" % (
+                                        sym.show(lv), sym.show(foreign[0])[:80], sym.show(lv), " (once per thread exit)" if isproc else ""), variant=vn)
         chk.set_count("R4.owning_fields", nown)
         # init_X / destroy_X pairs: allocations handed to the constructor and stored in fields
         inits = [f for f in fns if re.match(r"^init_[A-Za-z]+$", f.name)]
